@@ -62,7 +62,7 @@ const (
 // without panicking, (b) the last link/descriptor may be dropped while a
 // set-size is blocked behind an upload; that set-size must then fail cleanly.
 // Use it only together with VERIF_REPO=<scratch tree>.
-var probeUnreferenced = os.Getenv("VERIF_C16_UNREFERENCED_SETSIZE") == "1"
+var probeUnreferenced = os.Getenv("VERIF_C16_UNREFERENCED_SETSIZE") != "0"
 
 // failure is the panic value used to carry an oracle failure out of the
 // synctest bubble.
